@@ -6,8 +6,27 @@ import numpy as np
 IOAPI_STAMPS = ('CDATE', 'CTIME', 'WDATE', 'WTIME')
 
 
+def _text(data):
+    """object arrays (netCDF string variables) as fixed-width text: compared
+    and digested by content, not by object identity"""
+    if data.dtype.kind == 'O':
+        try:
+            return np.array([str(x) for x in data.ravel()],
+                            dtype='U').reshape(data.shape)
+        except Exception:
+            return data
+    return data
+
+
 def plain(a):
     """(data ndarray copy, mask ndarray copy or None, fill)"""
+    if not isinstance(a, np.ma.MaskedArray) and getattr(
+            np.asarray(a), 'dtype', np.dtype('f8')).kind == 'O':
+        return _text(np.array(a, copy=True, subok=False)), None, None
+    if isinstance(a, np.ma.MaskedArray) and np.ma.getdata(a).dtype.kind == \
+            'O':
+        return (_text(np.array(np.ma.getdata(a), copy=True, subok=False)),
+                np.array(np.ma.getmaskarray(a), copy=True, subok=False), None)
     if isinstance(a, np.ma.MaskedArray):
         data = np.array(np.ma.getdata(a), copy=True, subok=False)
         mask = np.array(np.ma.getmaskarray(a), copy=True, subok=False)
@@ -73,7 +92,8 @@ def snap_var(v):
         arr = np.ma.array(np.zeros((), getattr(v, 'dtype', 'f8')), mask=True)
     s.masked_type = isinstance(arr, np.ma.MaskedArray)
     s.data, s.mask, s.fill = plain(arr)
-    s.dtype = s.data.dtype.str
+    # (text: the width of the array is not a property of the variable)
+    s.dtype = 'U' if s.data.dtype.kind == 'U' else s.data.dtype.str
     s.shape = tuple(s.data.shape)
     s.attrs, s.attr_errs = attrs_of(v)
     return s
@@ -133,7 +153,8 @@ def same_value(a, b, exact_type=True):
 
 def data_equal(d1, m1, d2, m2):
     """bit-exact equality on unmasked cells + identical masks"""
-    if d1.shape != d2.shape or d1.dtype != d2.dtype:
+    if d1.shape != d2.shape or (d1.dtype != d2.dtype and not (
+            d1.dtype.kind == 'U' and d2.dtype.kind == 'U')):
         return False
     if m1 is None and m2 is None:
         return d1.tobytes() == d2.tobytes()
